@@ -65,6 +65,8 @@ GMD = [
     {'sample': {'relationships': ['text', 'grüße 日本 "q" \\ s1>s2']}},
     {'observation': {'tree': ['newick', '(a,b);'], 'note': ['text', 'second entry']},
      'sample': {'tree': ['newick', '(s1,(s2,s3));']}},
+    # very short payloads (a single-tip tree is two characters long)
+    {'observation': {'tree': ['newick', 'a;'], 'one': ['text', 'x']}, 'sample': {'three': ['text', 'abc'], 'two': ['xy', 'pq']}},
 ]
 
 QUICK_B_LAYOUTS = ['csr', 'unsorted', 'filtered']
@@ -389,7 +391,7 @@ def check(case, acc, tmp):
             P.state(acc, 'read', ld, ck, r.table_id, r.generated_by)
             acc.outcomes.add(ck)
             compare(r, src, gen, exp_id, ld, bad, acc, date_of(case))
-            if ld == 'from_hdf5' and case['prod'] in ('B-hdr', 'B-type'):
+            if ld == 'from_hdf5' and case['prod'] in ('B-hdr', 'B-type', 'B-md', 'B-x', 'B-ids', 'E', 'Z'):
                 # second generation: the loaded table is itself "a table produced by some history"
                 second_generation(r, src, gen, exp_id, bad, acc, date_of(case))
     finally:
@@ -523,8 +525,6 @@ def history_roundtrip(t, m, report):
     reaches (states outside C01's metadata domain are skipped and counted)"""
     import h5py
     from biom import Table
-    if 0 in t.shape:
-        return
     dense = np.asarray(t.matrix_data.toarray(), float)
     if not np.isfinite(dense).all():
         return
